@@ -588,6 +588,8 @@ class Symbolic(
       skip_notification = not flags.is_change_notification_enabled()
     if not skip_notification:
       self._notify_field_updates(updates, notify_parents=notify_parents)
+    else:
+      self._sym_reset_content_caches(updates)
     return self
 
   def sym_clone(self,
@@ -1267,6 +1269,31 @@ class Symbolic(
       # is processed.
       if target is self and not notify_parents:
         break
+
+  def _sym_reset_content_caches(
+      self, field_updates: Optional[List[FieldUpdate]] = None) -> None:
+    """Resets the content-based caches of the changed nodes and their ancestors.
+
+    `_notify_field_updates` resets these caches for every node it notifies.
+    This method does the same for changes that are not notified (notification
+    is disabled or skipped), so `sym_missing`, `sym_nondefault` etc. never
+    report the state before the change.
+
+    Args:
+      field_updates: The updates that took place. If None, `self` is the
+        changed node.
+    """
+    nodes = [self]
+    if field_updates is not None:
+      nodes = [update.target for update in field_updates]
+    for node in nodes:
+      while node is not None:
+        # pylint: disable=protected-access
+        node._set_raw_attr('_sym_puresymbolic', None)
+        node._set_raw_attr('_sym_missing_values', None)
+        node._set_raw_attr('_sym_nondefault_values', None)
+        # pylint: enable=protected-access
+        node = node.sym_parent
 
   def _error_message(self, message: str) -> str:
     """Create error message to include path information."""
